@@ -41,14 +41,14 @@ VARIABLES
     maxc,     \* the server's current SETTINGS_MAX_CONCURRENT_STREAMS
     ga,       \* [on, last, err]: GOAWAY received
     resv,     \* reservations made through ClientConn.ReserveNewRequest and not yet used
-    slack,    \* the limit was raised and no stream has finished since (waiters need not have moved)
+    lowm,     \* the lowest limit in force since the last event that wakes queued requests (a stream finished, PING ack)
     doomed,   \* open streams the client has a reason to reset (cancel, closed body, GOAWAY > last)
     own,      \* [Conns -> [stream id -> request]]
     req,      \* [Reqs -> [st, c, s, body, direct, may]]
     dev       \* named deviations of the real code that were observed (known findings), see Quiesce
 
-connVars == <<cst, lastId, open, cend, send, fresh, freshLo, pr, blocked, dnr, maxc, ga, resv, slack, doomed, own>>
-vars == <<strict, dev, cst, lastId, open, cend, send, fresh, freshLo, pr, blocked, dnr, maxc, ga, resv, slack, doomed, own, req>>
+connVars == <<cst, lastId, open, cend, send, fresh, freshLo, pr, blocked, dnr, maxc, ga, resv, lowm, doomed, own>>
+vars == <<strict, dev, cst, lastId, open, cend, send, fresh, freshLo, pr, blocked, dnr, maxc, ga, resv, lowm, doomed, own, req>>
 
 J17 == "C17" \in Judge
 J18 == "C18" \in Judge
@@ -74,16 +74,16 @@ InitWith(st) ==
     /\ pr = [c \in Conns |-> 0] /\ blocked = [c \in Conns |-> FALSE] /\ dnr = [c \in Conns |-> FALSE]
     /\ maxc = [c \in Conns |-> Inf]
     /\ ga = [c \in Conns |-> [on |-> FALSE, last |-> 0, err |-> FALSE]]
-    /\ resv = [c \in Conns |-> 0] /\ slack = [c \in Conns |-> FALSE]
+    /\ resv = [c \in Conns |-> 0] /\ lowm = [c \in Conns |-> Inf]
     /\ doomed = [c \in Conns |-> {}] /\ own = [c \in Conns |-> EmptyF]
     /\ req = [r \in Reqs |-> ReqNew]
 
 (* streams S of connection c leave the wire-level open set *)
 Drop(c, S) ==
     /\ open' = [open EXCEPT ![c] = @ \ S]
-    /\ slack' = [slack EXCEPT ![c] = IF S \cap open[c] # {} THEN FALSE ELSE @]
+    /\ lowm' = [lowm EXCEPT ![c] = IF S \cap open[c] # {} THEN maxc[c] ELSE @]
     /\ doomed' = [doomed EXCEPT ![c] = @ \ S]
-NoDrop == UNCHANGED <<open, slack, doomed>>
+NoDrop == UNCHANGED <<open, lowm, doomed>>
 
 -----------------------------------------------------------------------------
 (* ---------------- application ---------------- *)
@@ -97,7 +97,7 @@ StartOn(r, c, b) ==
     /\ r \in Reqs /\ c \in Conns /\ req[r].st = "new" /\ cst[c] # "none"
     /\ req' = [req EXCEPT ![r] = [ReqNew EXCEPT !.st = "wait", !.body = b, !.direct = c]]
     /\ resv' = [resv EXCEPT ![c] = IF @ > 0 THEN @ - 1 ELSE 0]
-    /\ UNCHANGED <<strict, dev, cst, lastId, open, cend, send, fresh, freshLo, pr, blocked, dnr, maxc, ga, slack, doomed, own>>
+    /\ UNCHANGED <<strict, dev, cst, lastId, open, cend, send, fresh, freshLo, pr, blocked, dnr, maxc, ga, lowm, doomed, own>>
 
 (* ClientConn.ReserveNewRequest: what the pool asks before it assigns a request.  C17: without *)
 (* strict mode a connection at its limit does not accept.                                      *)
@@ -106,7 +106,7 @@ Reserve(c, ok) ==
     /\ (J17 /\ ok) => /\ MayOpen(c)
                       /\ strict \/ Count(c) + resv[c] < maxc[c]
     /\ resv' = [resv EXCEPT ![c] = IF ok THEN @ + 1 ELSE @]
-    /\ UNCHANGED <<strict, dev, cst, lastId, open, cend, send, fresh, freshLo, pr, blocked, dnr, maxc, ga, slack, doomed, own, req>>
+    /\ UNCHANGED <<strict, dev, cst, lastId, open, cend, send, fresh, freshLo, pr, blocked, dnr, maxc, ga, lowm, doomed, own, req>>
 
 Cancel(r) ==
     /\ r \in Reqs /\ req[r].st \in {"wait", "open", "done"}
@@ -114,20 +114,20 @@ Cancel(r) ==
            hasStream == c \in Conns /\ s \in open[c] IN
        /\ req' = [req EXCEPT ![r] = IF @.st = "done" THEN @ ELSE Fin(@, {"canceled"})]
        /\ doomed' = IF hasStream THEN [doomed EXCEPT ![c] = @ \cup {s}] ELSE doomed
-    /\ UNCHANGED <<strict, dev, cst, lastId, open, cend, send, fresh, freshLo, pr, blocked, dnr, maxc, ga, resv, slack, own>>
+    /\ UNCHANGED <<strict, dev, cst, lastId, open, cend, send, fresh, freshLo, pr, blocked, dnr, maxc, ga, resv, lowm, own>>
 
 (* the application closes the response body of a finished RoundTrip *)
 CloseBody(r) ==
     /\ r \in Reqs /\ req[r].st = "done"
     /\ LET c == req[r].c  s == req[r].s IN
        doomed' = IF c \in Conns /\ s \in open[c] THEN [doomed EXCEPT ![c] = @ \cup {s}] ELSE doomed
-    /\ UNCHANGED <<strict, dev, cst, lastId, open, cend, send, fresh, freshLo, pr, blocked, dnr, maxc, ga, resv, slack, own, req>>
+    /\ UNCHANGED <<strict, dev, cst, lastId, open, cend, send, fresh, freshLo, pr, blocked, dnr, maxc, ga, resv, lowm, own, req>>
 
 (* ---------------- server ---------------- *)
 Settings(c, m) ==
     /\ c \in Conns /\ cst[c] = "up"
     /\ maxc' = [maxc EXCEPT ![c] = m]
-    /\ slack' = [slack EXCEPT ![c] = @ \/ m > maxc[c]]
+    /\ lowm' = [lowm EXCEPT ![c] = IF m < @ THEN m ELSE @]
     /\ freshLo' = [freshLo EXCEPT ![c] = {}]
     /\ UNCHANGED <<strict, dev, cst, lastId, open, cend, send, fresh, pr, blocked, dnr, ga, resv, doomed, own, req>>
 
@@ -172,7 +172,8 @@ PingAck(c) ==
     /\ pr' = [pr EXCEPT ![c] = 0]
     /\ blocked' = [blocked EXCEPT ![c] = @ \/ pr[c] > 0]
     /\ freshLo' = [freshLo EXCEPT ![c] = {}]
-    /\ UNCHANGED <<strict, dev, cst, lastId, open, cend, send, fresh, dnr, maxc, ga, resv, slack, doomed, own, req>>
+    /\ lowm' = [lowm EXCEPT ![c] = IF pr[c] > 0 THEN maxc[c] ELSE @]
+    /\ UNCHANGED <<strict, dev, cst, lastId, open, cend, send, fresh, dnr, maxc, ga, resv, doomed, own, req>>
 
 (* GOAWAY(last, code).  Streams above last are aborted: C18 says they are retryable. *)
 AfterGoAway(q, special) ==
@@ -189,7 +190,7 @@ GoAway(c, last, code) ==
        /\ req' = [r \in Reqs |-> IF req[r].st = "open" /\ req[r].c = c /\ req[r].s \in hit
                                   THEN AfterGoAway(req[r], req[r].s = 1 /\ err) ELSE req[r]]
     /\ freshLo' = [freshLo EXCEPT ![c] = {}]
-    /\ UNCHANGED <<strict, dev, cst, lastId, open, cend, send, fresh, pr, blocked, dnr, maxc, resv, slack, own>>
+    /\ UNCHANGED <<strict, dev, cst, lastId, open, cend, send, fresh, pr, blocked, dnr, maxc, resv, lowm, own>>
 
 (* the server closes the connection: what is in flight fails with the connection's error *)
 SClose(c) ==
@@ -210,7 +211,7 @@ Dial(c) ==
     /\ \A d \in Conns : d < c => cst[d] # "none"
     /\ (J17 /\ strict) => ~\E d \in Conns : Usable(d)
     /\ cst' = [cst EXCEPT ![c] = "up"]
-    /\ UNCHANGED <<strict, dev, lastId, open, cend, send, fresh, freshLo, pr, blocked, dnr, maxc, ga, resv, slack, doomed, own, req>>
+    /\ UNCHANGED <<strict, dev, lastId, open, cend, send, fresh, freshLo, pr, blocked, dnr, maxc, ga, resv, lowm, doomed, own, req>>
 
 (* HEADERS of request r open stream s on connection c *)
 Hdr(c, s, r, es) ==
@@ -227,7 +228,7 @@ Hdr(c, s, r, es) ==
     /\ fresh' = [fresh EXCEPT ![c] = @ \cup {s}] /\ freshLo' = [freshLo EXCEPT ![c] = @ \cup {s}]
     /\ own' = [own EXCEPT ![c] = (s :> r) @@ @]
     /\ req' = [req EXCEPT ![r] = [@ EXCEPT !.st = "open", !.c = c, !.s = s, !.may = {}]]
-    /\ UNCHANGED <<strict, dev, cst, send, pr, blocked, dnr, maxc, ga, resv, slack, doomed>>
+    /\ UNCHANGED <<strict, dev, cst, send, pr, blocked, dnr, maxc, ga, resv, lowm, doomed>>
 
 Data(c, s, es) ==
     /\ c \in Conns /\ s \in DOMAIN own[c]
@@ -276,7 +277,7 @@ QuiesceOK(facts) ==
          /\ f.c \in Conns
          /\ cst[f.c] = "up" => f.live = open[f.c] /\ f.pr = pr[f.c]     \* the spec's view is the client's
          /\ J17 => IF strict
-                   THEN (f.pd > 0 /\ Usable(f.c) /\ ~slack[f.c]) => Count(f.c) + f.rv >= maxc[f.c]   \* waiting only when full
+                   THEN (f.pd > 0 /\ Usable(f.c)) => Count(f.c) + f.rv >= lowm[f.c]                 \* waiting only when full
                    ELSE f.pd <= Cardinality({r \in Waiting : req[r].direct = f.c})                     \* pool never queues
 
 (* at a quiescent point the choice "retry or report" has been made.                              *)
@@ -287,8 +288,7 @@ QuiesceOK(facts) ==
 (*                   RoundTrip that fails before it gets a stream id releases two);                *)
 (*  StrictQueueStall strict mode: a request waits for a slot although the connection has room;    *)
 (*                   the slots are "taken" by the reservations of the requests queued behind it.   *)
-StallAt(f) == /\ strict /\ f.pd > 0 /\ Usable(f.c) /\ ~slack[f.c]
-              /\ Count(f.c) + resv[f.c] < maxc[f.c]
+StallAt(f) == strict /\ f.pd > 0 /\ Usable(f.c) /\ Count(f.c) + resv[f.c] < lowm[f.c]
 Quiesce(facts) ==
     /\ QuiesceOK(facts)
     /\ req' = [r \in Reqs |-> IF req[r].st = "wait" THEN [req[r] EXCEPT !.may = {}] ELSE req[r]]
@@ -297,7 +297,7 @@ Quiesce(facts) ==
            stall == {f \in facts : StallAt(f)} IN
        /\ resv' = [c \in Conns |-> IF \E f \in less : f.c = c THEN (CHOOSE f \in less : f.c = c).rv ELSE resv[c]]
        /\ dev' = dev \cup (IF lost # {} THEN {"ReservationLost"} ELSE {}) \cup (IF stall # {} THEN {"StrictQueueStall"} ELSE {})
-    /\ UNCHANGED <<strict, cst, lastId, open, cend, send, fresh, freshLo, pr, blocked, dnr, maxc, ga, slack, doomed, own>>
+    /\ UNCHANGED <<strict, cst, lastId, open, cend, send, fresh, freshLo, pr, blocked, dnr, maxc, ga, lowm, doomed, own>>
 
 NoDeviation == dev = {}
 
@@ -330,7 +330,8 @@ EnvStep ==
     \/ \E c \in Conns : \E s \in open[c] \ send[c] : SData(c, s, TRUE) /\ ~InFlight(OwnerOf(c, s), c, s)
     \/ On("srst") /\ \E c \in Conns : \E s \in open[c] \ send[c] : \E code \in {7, 8} : SRst(c, s, code)
     \/ On("pingack") /\ \E c \in Conns : pr[c] > 0 /\ PingAck(c)
-    \/ On("goaway") /\ \E c \in Conns : ~ga[c].on /\ \E last \in {0} \cup open[c] \cup {2147483647} : \E code \in {0, 2} : GoAway(c, last, code)
+    \/ On("goaway") /\ \E c \in Conns : ~ga[c].on /\ \E last \in {0} \cup open[c] \cup {2147483647} :
+          \E code \in (IF On("goaway_err") THEN {0, 2} ELSE {0}) : GoAway(c, last, code)
     \/ On("goaway") /\ \E c \in Conns : ga[c].on /\ SClose(c)
 
 (* Spec: the client runs to quiescence between two environment events (what the conformance     *)
@@ -361,5 +362,5 @@ NoSecondCopy == \A r \in Reqs :
 (* C18: after GOAWAY no stream is opened on that connection *)
 QuietAfterGoAway == [][\A c \in Conns : ga[c].on => lastId'[c] = lastId[c]]_vars
 IncreasingIds == [][\A c \in Conns : lastId'[c] >= lastId[c]]_vars
-mcView == <<strict, dev, cst, lastId, open, cend, send, fresh, freshLo, pr, blocked, dnr, maxc, ga, resv, slack, doomed, own, req>>
+mcView == <<strict, dev, cst, lastId, open, cend, send, fresh, freshLo, pr, blocked, dnr, maxc, ga, resv, lowm, doomed, own, req>>
 =============================================================================
